@@ -300,7 +300,8 @@ def forced_zeros(L, A):
     width = max(float(w[-1] - w[0]), 1e-300)
     sel = (w - w[0]) <= 1e-6 * width
     amp = np.sqrt(np.sum(np.abs(U[:, sel]) ** 2, axis=1))
-    return amp <= 1e-7 * float(np.max(amp))
+    # dense eigenvectors carry an error ~ eps * |H| / gap (cotangent weights of 1e8 occur on right-angled pairs)
+    return amp <= max(1e-7, 1e-14 * float(np.max(np.abs(H)))) * float(np.max(amp))
 
 
 def partition(case, mesh, ff, ref, medges):
